@@ -88,16 +88,19 @@ pub fn run(toks: &[&str], out: &mut Vec<String>) -> R<()> {
                 _ => return Err(NoImpl),
             }
         }
-        "cmp" | "eq" => {
+        "cmp" | "eq" | "lt" | "le" | "gt" | "ge" | "ne" => {
             want(toks, 4)?;
             match (p_opd(toks[2])?, p_opd(toks[3])?) {
-                (Opd::Q(a), Opd::Q(b)) => {
-                    if op == "cmp" {
-                        out.push(f_ord(a.partial_cmp(&b)))
-                    } else {
-                        out.push((a == b).enc())
-                    }
-                }
+                (Opd::Q(a), Opd::Q(b)) => match op {
+                    "cmp" => out.push(f_ord(a.partial_cmp(&b))),
+                    "eq" => out.push((a == b).enc()),
+                    // the operator forms are separate (overridable) trait methods: each must agree with partial_cmp / eq
+                    "lt" => out.push((a < b).enc()),
+                    "le" => out.push((a <= b).enc()),
+                    "gt" => out.push((a > b).enc()),
+                    "ge" => out.push((a >= b).enc()),
+                    _ => out.push((a != b).enc()),
+                },
                 _ => return Err(NoImpl),
             }
         }
